@@ -220,6 +220,8 @@ def mini_eval(e: ast.AST, env: dict[str, object]):
         return e.value
     if isinstance(e, ast.Name):
         raise AnalysisError(f"mini_eval: free name {e.id}")
+    if isinstance(e, ast.Attribute):
+        raise AnalysisError(f"mini_eval: free attribute {key[:60]}")
     if isinstance(e, ast.Tuple):
         return tuple(mini_eval(x, env) for x in e.elts)
     if isinstance(e, ast.List):
@@ -277,7 +279,71 @@ def mini_eval(e: ast.AST, env: dict[str, object]):
         import builtins
 
         return getattr(builtins, e.func.id)(*[mini_eval(a, env) for a in e.args])
+    if isinstance(e, ast.Call) and isinstance(e.func, ast.Name) and e.func.id in ("any", "all", "tuple", "list", "set", "sorted", "frozenset") and len(e.args) == 1 and not e.keywords:
+        import builtins
+
+        return getattr(builtins, e.func.id)(mini_eval(e.args[0], env))
+    if isinstance(e, (ast.GeneratorExp, ast.ListComp, ast.SetComp)):
+        out: list = []
+
+        def rec(i: int, env2: dict[str, object]) -> None:
+            if i == len(e.generators):
+                out.append(mini_eval(e.elt, env2))
+                return
+            g = e.generators[i]
+            for item in mini_eval(g.iter, env2):
+                env3 = dict(env2)
+                _bind(g.target, item, env3)
+                if all(mini_eval(c, env3) for c in g.ifs):
+                    rec(i + 1, env3)
+
+        rec(0, env)
+        return set(out) if isinstance(e, ast.SetComp) else out
+    if isinstance(e, ast.Call) and isinstance(e.func, ast.Attribute) and e.func.attr in _PURE_METHODS and not e.keywords:
+        recv = mini_eval(e.func.value, env)
+        if isinstance(recv, (str, bytes, tuple, frozenset)):
+            return getattr(recv, e.func.attr)(*[mini_eval(a, env) for a in e.args])
+        if isinstance(recv, dict) and e.func.attr == "get":
+            return recv.get(*[mini_eval(a, env) for a in e.args])
+        raise AnalysisError(f"mini_eval: method {e.func.attr} on non-immutable value")
+    if isinstance(e, ast.JoinedStr):
+        parts = []
+        for v in e.values:
+            if isinstance(v, ast.Constant):
+                parts.append(str(v.value))
+            elif isinstance(v, ast.FormattedValue) and v.format_spec is None:
+                val = mini_eval(v.value, env)
+                parts.append(repr(val) if v.conversion == ord("r") else str(val))
+            else:
+                raise AnalysisError("mini_eval: unsupported f-string part")
+        return "".join(parts)
+    if isinstance(e, ast.Set):
+        return {mini_eval(x, env) for x in e.elts}
+    if isinstance(e, ast.Dict):
+        return {mini_eval(k, env): mini_eval(v, env) for k, v in zip(e.keys, e.values) if k is not None}
+    if isinstance(e, ast.NamedExpr):
+        raise AnalysisError("mini_eval: walrus not supported")
     raise AnalysisError(f"mini_eval: unsupported expression `{key[:80]}`")
+
+
+_PURE_METHODS = {
+    "startswith", "endswith", "lower", "upper", "strip", "rstrip", "lstrip", "removeprefix", "removesuffix", "split",
+    "rsplit", "partition", "rpartition", "encode", "decode", "isdigit", "isascii", "isalnum", "find", "rfind", "count",
+    "index", "get", "casefold", "title", "replace", "join", "splitlines", "isspace", "isalpha", "isdecimal",
+}
+
+
+def _bind(target: ast.expr, value, env: dict[str, object]) -> None:
+    if isinstance(target, ast.Name):
+        env[target.id] = value
+    elif isinstance(target, (ast.Tuple, ast.List)):
+        vals = list(value)
+        if len(vals) != len(target.elts):
+            raise AnalysisError("mini_eval: unpack arity")
+        for t, v in zip(target.elts, vals):
+            _bind(t, v, env)
+    else:
+        raise AnalysisError("mini_eval: unsupported binding target")
 
 
 def txt(e: ast.AST) -> str:
